@@ -9,7 +9,11 @@ WKEYS = ["monday", "tuesday", "wednesday", "thursday", "friday", "saturday", "su
 def _assignments(info, normalize):
     """form -> sequence of keys written into the dictionary for that form, in construction order
     (languages/dictionary.py:75-108; :333-352 for the normalised dictionary)"""
-    from dateparser.languages.dictionary import ALWAYS_KEEP_TOKENS, KNOWN_WORD_TOKENS, PARSER_KNOWN_TOKENS
+    # the token lists of dictionary.py:7-43 are part of the MODEL (Vocabulary.tla's construction order), not read from
+    # the tree: a tree that adds a parser token shadowing a listed name must not thereby shrink the property's domain
+    ALWAYS_KEEP_TOKENS = ["+", ":", ".", " ", "-", "/"]
+    PARSER_KNOWN_TOKENS = ["am", "pm", "UTC", "GMT", "Z"]
+    KNOWN_WORD_TOKENS = WKEYS + MKEYS + ["decade", "year", "month", "week", "day", "hour", "minute", "second", "ago", "in", "am", "pm"]
     from dateparser.utils import normalize_unicode
     writes = []          # (form, key)
     for w in info.get("skip", []):
